@@ -1,7 +1,8 @@
 from checks.gencommon import *
 
 def run(tier):
-    return run_gen("C05", tier, "^VerifC05", hgen_extra=["-jmode"], extra_runs=[JSON_STRINGS],
+    return run_gen("C05", tier, "^VerifC05", hgen_extra=["-jmode"], extra_runs=[JSON_STRINGS, dict(key="f07", schema="f07_dicts.tl", props=["C05"], regex="^VerifC05x_", params_q={}, params_t={}, libs=["zz_verif_c05_f07.go"], only=["F07VecDict"], wall_q="60s", wall_t="300s",
+                                                  text="typed case f07.vecDict: dictionaries whose values own memory (vectors, nested dictionaries) with several entries (entries must not alias after a JSON read)")],
                    params_q={"D": 1, "L": 2, "S": 1, "B": 1, "pool": 1}, params_t={"D": 2, "L": 2, "S": 2, "B": 2, "pool": 4, "extrabit": 1},
                    ladder=[{"B": 1, "S": 1, "D": 1, "pool": 1, "extrabit": 0}], r_thorough=R_QUICK,
                    bounds={"value": "JSON-mode value: integer and float leaves are concrete on each path (rotating pool 0,1,7,1234567,max,min / 0,1.5,-2,NaN,+Inf,-Inf), field masks range over every subset of the bits the schema uses, "
